@@ -56,7 +56,7 @@ def gen_prog(rng, table):
         elif r < 0.85:
             N = rng.randrange(1, 33)
             v = rng.choice([0, 1, 256 ** N - 1, 256 ** (N - 1), rng.getrandbits(8 * N), rng.getrandbits(rng.randrange(1, 8 * N + 1))])
-            prog.append(("op", f"push{N}", ("num", v, rng.choice([10, 16, 16, 2, 8]))))
+            prog.append(("op", f"push{N}", ("num", v, rng.choice([10, 16, 16, 2, 8]), rng.choice([0, 0, 0, 1, 2]))))      # leading zeros never change a value
         elif r < 0.93:
             l = f"lb{len(labels)}"
             labels.append(l)
